@@ -24,6 +24,10 @@ pub struct AltR {
     pub fuzzy: bool,
     /// `found` is unspecified (a label rewrote a user-supplied error, which carries no found token)
     pub found_fuzzy: bool,
+    /// the error was produced inside a nested input (C16): its span in absolute offsets
+    pub abs: Option<(usize, usize)>,
+    /// for an inner error at the end of the inner input: the other admissible start (eoi.end)
+    pub abs_end_alt: Option<usize>,
 }
 
 #[derive(Clone, Debug, PartialEq)]
@@ -38,6 +42,8 @@ pub struct Emis {
     /// position the emission is attached to (used for as_context spans)
     pub at: usize,
     pub ctx: Vec<(String, (usize, usize))>,
+    /// emitted inside a nested input (C16): the admissible span in absolute offsets
+    pub abs: Option<crate::compare::ExpSpan>,
 }
 
 #[derive(Clone, Debug, Default)]
@@ -85,6 +91,14 @@ pub struct Stats {
     /// failure events with unspecified positions were generated (nested_delimiters' scanner)
     pub unspecified_events: bool,
     pub sites: Vec<&'static str>,
+    // ---- nested inputs (C16)
+    pub nested_entered: u32,
+    pub nested_inner_failed: u32,
+    pub nested_inner_prefix_only: u32,
+    pub nested_inner_emitted: u32,
+    pub nested_inner_left_alt: u32,
+    pub nested_not_a_group: u32,
+    pub nested_max_depth: u32,
 }
 
 #[derive(Clone, Debug, Default)]
@@ -102,6 +116,11 @@ pub struct RefOpts {
     pub vlabel_alt: bool,
     /// V-take variant: a successful recovery does not consume the pending error
     pub vtake_alt: bool,
+    /// V-nested-pos variant: the failure of a nested parse counts at the outer position OF the group
+    /// token instead of just after it
+    pub vnested_at_token: bool,
+    /// V-nested-leftover variant: a nested parse that succeeded leaves no failure events behind
+    pub vnested_drop_leftover: bool,
 }
 
 #[derive(Clone)]
@@ -133,6 +152,9 @@ pub struct Rf<'a> {
     memo_seen: HashMap<(u32, usize), u32>,
     /// user state left behind in the caller's scope after the whole parse
     pub final_state: (u64, u64),
+    /// token-tree inputs (C16): the nodes behind `toks` and the eoi span of this sequence
+    tree: Option<&'a [TNode]>,
+    nest_depth: u32,
 }
 
 #[derive(Clone, Debug)]
@@ -147,29 +169,54 @@ pub struct RefOut {
     pub log: Vec<u32>,
     pub stats: Stats,
     pub final_state: (u64, u64),
+    pub fuel_left: u64,
 }
 
 type R = Result<(Val, usize), ()>;
 
 pub fn eval(g: &G, toks: &[char], opts: RefOpts) -> RefOut {
+    eval_with(g, g, toks, None, opts, None, 400_000, 0)
+}
+
+/// evaluate over a token tree (C16): group tokens look like GOPEN to every parser but nested_in
+pub fn eval_tree(g: &G, nodes: &[TNode], opts: RefOpts) -> RefOut {
+    let toks: Vec<char> = nodes.iter().map(|n| n.ch()).collect();
+    eval_with(g, g, &toks, Some(nodes), opts, None, 400_000, 0)
+}
+
+#[allow(clippy::too_many_arguments)]
+fn eval_with<'a>(root: &'a G, g: &'a G, toks: &'a [char], tree: Option<&'a [TNode]>, opts: RefOpts, outer: Option<(&HashMap<*const G, u32>, &HashMap<u8, &'a G>, &Env)>, fuel: u64, nest_depth: u32) -> RefOut {
     let mut rf = Rf {
         toks,
-        ids: number(g),
+        ids: match outer {
+            Some((ids, _, _)) => ids.clone(),
+            None => number(root),
+        },
         opts,
         alt: None,
         emitted: vec![],
         log: vec![],
-        recs: HashMap::new(),
+        recs: match outer {
+            Some((_, recs, _)) => recs.clone(),
+            None => HashMap::new(),
+        },
         stats: Stats::default(),
         hi: 0,
-        fuel: 400_000,
+        fuel,
         ws_ranges: vec![],
         next_scope: 1,
         ctx_seen: HashMap::new(),
         memo_seen: HashMap::new(),
         final_state: (0, 0),
+        tree,
+        nest_depth,
     };
-    let env = Env { ctx: Val::Unit, st_seed: None, st_start: 0, in_ws: false, depth: 0, scope: 0 };
+    rf.stats.nested_max_depth = nest_depth;
+    let env = match outer {
+        // the inner parse shares the caller's context; user state inside nested inputs is not modelled
+        Some((_, _, e)) => Env { ctx: e.ctx.clone(), st_seed: None, st_start: 0, in_ws: false, depth: e.depth, scope: 0 },
+        None => Env { ctx: Val::Unit, st_seed: None, st_start: 0, in_ws: false, depth: 0, scope: 0 },
+    };
     let res = rf.ev(g, 0, &env);
     if let Ok((_, e)) = &res {
         let st = rf.state_at(&env, *e);
@@ -193,7 +240,7 @@ pub fn eval(g: &G, toks: &[char], opts: RefOpts) -> RefOut {
             a.fuzzy = true;
         }
     }
-    RefOut { prefix, accepted, emitted: rf.emitted, alt: rf.alt, log: rf.log, stats: rf.stats, final_state: rf.final_state }
+    RefOut { prefix, accepted, emitted: rf.emitted, alt: rf.alt, log: rf.log, stats: rf.stats, final_state: rf.final_state, fuel_left: rf.fuel }
 }
 
 impl<'a> Rf<'a> {
@@ -220,6 +267,9 @@ impl<'a> Rf<'a> {
                     self.stats.events_merged += 1;
                     old.merged += new.merged;
                     old.fuzzy |= new.fuzzy;
+                    // an error from inside a nested input merged with another event: which span / found
+                    // survives is not specified
+                    old.fuzzy |= old.abs.is_some() || new.abs.is_some();
                     old.found_fuzzy |= new.found_fuzzy;
                     for c in new.ctx_any.iter().chain(new.ctx.iter()) {
                         if !old.ctx_any.contains(c) {
@@ -253,7 +303,7 @@ impl<'a> Rf<'a> {
         let n = self.n();
         let found = self.toks.get(pos).copied();
         let span = (span.0.min(n), span.1.min(n));
-        self.add(AltR { pos, span, exp, found: Some(found), custom: None, ctx: vec![], ctx_any: vec![], merged: 1, fuzzy: false, found_fuzzy: false });
+        self.add(AltR { pos, span, exp, found: Some(found), custom: None, ctx: vec![], ctx_any: vec![], merged: 1, fuzzy: false, found_fuzzy: false, abs: None, abs_end_alt: None });
     }
     fn custom_event(&mut self, pos: usize, msg: String, span: (usize, usize)) {
         let n = self.n();
@@ -269,6 +319,8 @@ impl<'a> Rf<'a> {
             merged: 1,
             fuzzy: false,
             found_fuzzy: false,
+            abs: None,
+            abs_end_alt: None,
         });
     }
 
@@ -556,6 +608,8 @@ impl<'a> Rf<'a> {
                             merged: 1,
                             fuzzy: true,
                             found_fuzzy: false,
+                            abs: None,
+                            abs_end_alt: None,
                         });
                         Err(())
                     }
@@ -720,7 +774,7 @@ impl<'a> Rf<'a> {
             Validate(a, t, k) => {
                 let (v, e) = self.ev(a, pos, env)?;
                 for i in 0..*k {
-                    self.emitted.push(Emis { kind: EmisKind::Validate(*t, i), span: (pos, e), at: pos, ctx: vec![] });
+                    self.emitted.push(Emis { kind: EmisKind::Validate(*t, i), span: (pos, e), at: pos, ctx: vec![], abs: None });
                 }
                 Ok((if self.opts.cap_spans { Val::pair(Val::Span(pos, e), v) } else { v }, e))
             }
@@ -845,6 +899,61 @@ impl<'a> Rf<'a> {
                 }
                 // the observed wrapper belongs to the definition node, as in the built parser
                 self.ev(body, pos, &env2)
+            }
+            NestedIn(a) => {
+                let node = self.tree.and_then(|t| t.get(pos));
+                let Some(TNode { tok: TreeTok::Group(kids, eoi), .. }) = node else {
+                    // select_ref! { Group(..) => .. } on a leaf token or at the end
+                    self.stats.nested_not_a_group += 1;
+                    self.event(pos, [Pat::SomethingElse].into_iter().collect(), (pos, pos + 1));
+                    return Err(());
+                };
+                self.adv(pos + 1);
+                self.stats.nested_entered += 1;
+                let ktoks: Vec<char> = kids.iter().map(|k| k.ch()).collect();
+                let sub = {
+                    let ids = &self.ids;
+                    let recs = &self.recs;
+                    // SAFETY of lifetimes: `kids` lives as long as the tree ('a); `ktoks` only for this call
+                    eval_inner(a, &ktoks, kids, self.opts.clone(), ids, recs, env, self.fuel, self.nest_depth + 1)
+                };
+                self.fuel = sub.fuel_left;
+                self.stats.absorb(&sub.stats);
+                let spans: Vec<(usize, usize)> = kids.iter().map(|k| k.span).collect();
+                let sm = crate::compare::SpanMap::gapped(&spans, *eoi, 1);
+                if !sub.emitted.is_empty() {
+                    self.stats.nested_inner_emitted += 1;
+                }
+                for mut e in sub.emitted {
+                    absolutize_emis(&mut e, &sm);
+                    e.at = pos + 1;
+                    self.emitted.push(e);
+                }
+                let leftover_dropped = sub.accepted && self.opts.vnested_drop_leftover;
+                if let (Some(mut al), false) = (sub.alt, leftover_dropped) {
+                    absolutize_alt(&mut al, &sm);
+                    al.pos = if self.opts.vnested_at_token { pos } else { pos + 1 };
+                    al.span = (pos, pos + 1);
+                    if sub.accepted {
+                        self.stats.nested_inner_left_alt += 1;
+                    }
+                    self.add(al);
+                }
+                match sub.prefix {
+                    Some((mut v, _)) if sub.accepted => {
+                        absolutize_val(&mut v, &sm);
+                        Ok((v, pos + 1))
+                    }
+                    Some(_) => {
+                        self.stats.nested_inner_prefix_only += 1;
+                        self.stats.nested_inner_failed += 1;
+                        Err(())
+                    }
+                    None => {
+                        self.stats.nested_inner_failed += 1;
+                        Err(())
+                    }
+                }
             }
             Lazy(a) => {
                 let (v, e) = self.ev(a, pos, env)?;
@@ -1193,7 +1302,7 @@ impl<'a> Rf<'a> {
                 if !self.stats.sites.contains(&site) {
                     self.stats.sites.push(site);
                 }
-                self.emitted.push(Emis { kind: EmisKind::Recovered(e_alt.clone()), span: e_alt.span, at: e, ctx: e_alt.ctx.clone() });
+                self.emitted.push(Emis { kind: EmisKind::Recovered(e_alt.clone()), span: e_alt.span, at: e, ctx: e_alt.ctx.clone(), abs: None });
                 if self.opts.vtake_alt {
                     let keep = e_alt;
                     self.add(keep);
@@ -1347,4 +1456,102 @@ impl Emis {
             EmisKind::Recovered(a) => format!("recovered@{}", a.pos),
         }
     }
+}
+
+// ---------------------------------------------------------------------------------------------
+// nested inputs (C16)
+
+#[allow(clippy::too_many_arguments)]
+fn eval_inner<'a>(g: &'a G, ktoks: &[char], kids: &'a [TNode], opts: RefOpts, ids: &HashMap<*const G, u32>, recs: &HashMap<u8, &'a G>, env: &Env, fuel: u64, depth: u32) -> RefOut {
+    // `ktoks` is only borrowed for the duration of the inner evaluation; the result owns everything
+    let ktoks: &'a [char] = unsafe { std::mem::transmute::<&[char], &'a [char]>(ktoks) };
+    eval_with(g, g, ktoks, Some(kids), opts, Some((ids, recs, env)), fuel, depth)
+}
+
+impl Stats {
+    fn absorb(&mut self, o: &Stats) {
+        self.evals += o.evals;
+        self.partial_backtracks += o.partial_backtracks;
+        self.backtracks += o.backtracks;
+        self.semantic_rejects += o.semantic_rejects;
+        self.abandoned_emissions += o.abandoned_emissions;
+        self.recoveries_fired += o.recoveries_fired;
+        self.recoveries_abandoned += o.recoveries_abandoned;
+        self.recoveries_failed += o.recoveries_failed;
+        self.rec_calls += o.rec_calls;
+        self.fuel_out |= o.fuel_out;
+        self.unspecified_events |= o.unspecified_events;
+        self.used_vlead |= o.used_vlead;
+        self.used_vtrailcap |= o.used_vtrailcap;
+        self.lo_gt_hi |= o.lo_gt_hi;
+        self.trymap_inner_events |= o.trymap_inner_events;
+        self.nested_entered += o.nested_entered;
+        self.nested_inner_failed += o.nested_inner_failed;
+        self.nested_inner_prefix_only += o.nested_inner_prefix_only;
+        self.nested_inner_emitted += o.nested_inner_emitted;
+        self.nested_inner_left_alt += o.nested_inner_left_alt;
+        self.nested_not_a_group += o.nested_not_a_group;
+        self.nested_max_depth = self.nested_max_depth.max(o.nested_max_depth);
+        for k in &o.sites {
+            if !self.sites.contains(k) {
+                self.sites.push(k);
+            }
+        }
+    }
+}
+
+/// spans of an inner result become absolute offsets (they can no longer be looked up in the outer
+/// sequence's table)
+fn absolutize_val(v: &mut Val, sm: &crate::compare::SpanMap) {
+    use crate::compare::ExpSpan;
+    match v {
+        Val::Span(s, e) => {
+            *v = match sm.expect(*s, *e) {
+                ExpSpan::Exact(a, b) => Val::Abs(a, b, true),
+                ExpSpan::EmptyIn(a, b) => Val::Abs(a, b, false),
+            }
+        }
+        Val::Obs(_, _, _, inner) => absolutize_val(inner, sm),
+        Val::List(l) => l.iter_mut().for_each(|x| absolutize_val(x, sm)),
+        Val::Pair(a, b) => {
+            absolutize_val(a, sm);
+            absolutize_val(b, sm)
+        }
+        Val::Opt(Some(a)) | Val::St(_, _, a) | Val::Mark(_, a) => absolutize_val(a, sm),
+        Val::Cx(c, a) => {
+            absolutize_val(c, sm);
+            absolutize_val(a, sm)
+        }
+        _ => {}
+    }
+}
+fn absolutize_alt(a: &mut AltR, sm: &crate::compare::SpanMap) {
+    if a.abs.is_some() {
+        return;
+    }
+    let n = sm.n();
+    let (s, e) = a.span;
+    if s >= n {
+        a.abs_end_alt = Some(sm.eoi.1);
+    }
+    a.abs = Some(if s >= n {
+        sm.eoi
+    } else if s < e {
+        (sm.starts[s], sm.ends[(e - 1).min(n - 1)])
+    } else {
+        a.fuzzy = true;
+        (sm.starts[s], sm.starts[s])
+    });
+    // label contexts would need the same treatment; not generated inside nested inputs
+    a.ctx.clear();
+    a.ctx_any.clear();
+}
+fn absolutize_emis(e: &mut Emis, sm: &crate::compare::SpanMap) {
+    if e.abs.is_none() {
+        e.abs = Some(sm.expect(e.span.0, e.span.1));
+    }
+    if let EmisKind::Recovered(a) = &mut e.kind {
+        absolutize_alt(a, sm);
+    }
+    e.ctx.clear();
 }
